@@ -1,4 +1,5 @@
 import EudoxiaModel.Model.Container
+import EudoxiaModel.Model.Sort
 /-! `eudoxia/executor/resource_pool.py`: one function per phase of `ResourcePool.run_one_tick`. -/
 namespace Eudoxia
 open OpState
@@ -95,17 +96,27 @@ def startAll (cfg : Cfg) (w : Store) (p : Pool) (nextCid : Nat) : List Asg → E
 
 /-! ### phase 3: suspending containers -/
 
-/-- tick the containers of the suspending list (given as argument), moving finished ones to `suspended` -/
-def suspTickAll (w : Store) (p : Pool) : List Ctr → Except Err (Store × Pool)
-  | [] => .ok (w, p)
+/-- `suspend_container_tick` on every suspending container, in list order -/
+def suspTickList (w : Store) : List Ctr → Except Err (Store × List Ctr)
+  | [] => .ok (w, [])
   | c :: cs => match c.suspendTick w with
     | .error e => .error e
-    | .ok (w1, c1) =>
-      if c1.suspLeft == 0 then
-        suspTickAll w1 { p with availC := p.availC + (c.cpu : Int), availR := p.availR + (c.ram : Int),
-                                suspending := p.suspending.filter (·.cid != c.cid),
-                                suspended := p.suspended ++ [c1] } cs
-      else suspTickAll w1 { p with suspending := p.suspending.map (fun x => if x.cid == c.cid then c1 else x) } cs
+    | .ok (w1, c1) => match suspTickList w1 cs with
+      | .error e => .error e
+      | .ok (w2, cs2) => .ok (w2, c1 :: cs2)
+
+def cpuSum (l : List Ctr) : Int := (l.map (fun c => (c.cpu : Int))).sum
+def ramSum (l : List Ctr) : Int := (l.map (fun c => (c.ram : Int))).sum
+
+/-- tick the suspending containers; those whose write-out is finished free their allocation and move to `suspended` -/
+def suspTickAll (w : Store) (p : Pool) : Except Err (Store × Pool) :=
+  match suspTickList w p.suspending with
+  | .error e => .error e
+  | .ok (w1, l) =>
+    let done := l.filter (fun c => c.suspLeft == 0)
+    .ok (w1, { p with availC := p.availC + cpuSum done, availR := p.availR + ramSum done,
+                      suspending := l.filter (fun c => !(c.suspLeft == 0)),
+                      suspended := p.suspended ++ done })
 
 /-! ### phase 4: tick the active containers -/
 
@@ -136,12 +147,8 @@ def killIndividual (w : Store) : List Ctr → Int → Except Err (Store × List 
 /-- score c1 ≥ score c2 where score = usage²/allocation (cross-multiplied) -/
 def scoreGe (c1 c2 : Ctr) : Bool := c1.mem * c1.mem * c2.ram ≥ c2.mem * c2.mem * c1.ram
 
-def insertDesc (x : Ctr) : List Ctr → List Ctr
-  | [] => [x]
-  | y :: ys => if scoreGe y x then y :: insertDesc x ys else x :: y :: ys
-
-/-- stable descending sort (`list.sort(key=score, reverse=True)`) -/
-def sortDesc (l : List Ctr) : List Ctr := l.foldl (fun acc x => insertDesc x acc) []
+/-- stable descending sort by score (`scored.sort(key=lambda x: x[0], reverse=True)`) -/
+def sortDesc (l : List Ctr) : List Ctr := SortP.sortDesc scoreGe l
 
 def replaceCtr (l : List Ctr) (c : Ctr) : List Ctr := l.map (fun x => if x.cid == c.cid then c else x)
 
@@ -178,9 +185,6 @@ def oomKiller (w : Store) (p : Pool) : Except Err (Store × Pool) :=
 
 def mkRes (c : Ctr) : Res := { cid := c.cid, ok := !c.err, ops := c.ops, cpu := c.cpu, ram := c.ram, prio := c.prio, pool := c.pool }
 
-def cpuSum (l : List Ctr) : Int := (l.map (fun c => (c.cpu : Int))).sum
-def ramSum (l : List Ctr) : Int := (l.map (fun c => (c.ram : Int))).sum
-
 def collect (p : Pool) : Pool × List Res :=
   let done := p.active.filter (·.completed)
   let rest := p.active.filter (!·.completed)
@@ -199,7 +203,7 @@ deriving Repr, Inhabited
 
 /-- phases 3–6 (errors here abort a real simulation) -/
 def poolRun (cfg : Cfg) (w : Store) (p : Pool) : Except Err (Store × Pool × List Res) :=
-  match suspTickAll w p p.suspending with
+  match suspTickAll w p with
   | .error e => .error e
   | .ok (w3, p3) =>
   match tickAll cfg w3 p3.active p3.consumed with
